@@ -696,6 +696,14 @@ func c08R1(c *Ctx, r *c08Roles) {
 					dedupSets[a] = true
 				}
 			}
+			// the same empty set made in place (`make(set.Set[K], n)`: the capacity hint does not change its content)
+			AllInstrs(h, func(in ssa.Instruction) {
+				if mm, ok := in.(*ssa.MakeMap); ok && c09IsSetType(mm.Type()) {
+					for a := range Aliases(mm) {
+						dedupSets[a] = true
+					}
+				}
+			})
 		}
 		// the set handed on to / returned by an extracted pass
 		var isDedup func(v ssa.Value, d int) bool
